@@ -147,6 +147,10 @@ package bttest
 //@   ensures exists i :: 0 <= i < len(r.Families) && r.Families[i] == result
 //@   ensures forall i :: 0 <= i < old(len(r.Families)) ==> r.Families[i] == old(r.Families[i])
 //@   ensures len(r.Families) == old(len(r.Families)) || (len(r.Families) == old(len(r.Families)) + 1 && fresh(result) && len(result.Columns) == 0 && r.Families[old(len(r.Families))] == result)
+//@   ensures obj(r.Families) == old(obj(r.Families)) || fresh(r.Families)
+//@   ensures fresh(result) ==> obj(result.Columns) == 0 && cap(result.Columns) == 0
+//@   ensures fresh(result) ==> forall i :: 0 <= i < old(len(r.Families)) ==> old(r.Families[i].Name) != name
+//@   ensures !fresh(result) ==> len(r.Families) == old(len(r.Families)) && obj(r.Families) == old(obj(r.Families))
 
 //@ func getOrCreateColumn
 //@   property C01 C05 C13
@@ -157,6 +161,10 @@ package bttest
 //@   ensures exists i :: 0 <= i < len(fam.Columns) && fam.Columns[i] == result
 //@   ensures forall i :: 0 <= i < old(len(fam.Columns)) ==> fam.Columns[i] == old(fam.Columns[i])
 //@   ensures len(fam.Columns) == old(len(fam.Columns)) || (len(fam.Columns) == old(len(fam.Columns)) + 1 && fresh(result) && len(result.Cells) == 0 && fam.Columns[old(len(fam.Columns))] == result)
+//@   ensures obj(fam.Columns) == old(obj(fam.Columns)) || fresh(fam.Columns)
+//@   ensures fresh(result) ==> obj(result.Cells) == 0 && cap(result.Cells) == 0
+//@   ensures fresh(result) ==> forall i :: 0 <= i < old(len(fam.Columns)) ==> !bytesEq(old(fam.Columns[i].Qualifier), name)
+//@   ensures !fresh(result) ==> len(fam.Columns) == old(len(fam.Columns)) && obj(fam.Columns) == old(obj(fam.Columns))
 
 //@ func copyRow
 //@   property C05 C12
@@ -186,7 +194,6 @@ package bttest
 //@ func (t *table) getOrCreateRow
 //@   property C01 C06
 //@   held t.mu r
-//@   requires t.rows != nil
 //@   ensures rowRep(result) && fresh(result)
 
 //@ func modifyCell
